@@ -15,6 +15,16 @@ void *__real_memcpy(void *, const void *, size_t); void *__real_memset(void *, i
 #define memcpy __real_memcpy
 #define memset __real_memset
 #define memmove __real_memmove
+/* ... and the string functions whose writes are reported for the code under test (mcrt_mem.c): the runtime formats with the v-variants, which are not wrapped */
+#include <stdarg.h>
+static inline __attribute__((format(printf, 3, 4), unused)) int mcrt_snprintf(char *d, size_t n, const char *fmt, ...) { va_list ap; int r; va_start(ap, fmt); r = vsnprintf(d, n, fmt, ap); va_end(ap); return r; }
+char *__real_strcpy(char *, const char *); char *__real_strncpy(char *, const char *, size_t); char *__real_strcat(char *, const char *);
+#ifndef MCRT_MEM_WRAPPERS
+#define snprintf mcrt_snprintf
+#define strcpy __real_strcpy
+#define strncpy __real_strncpy
+#define strcat __real_strcat
+#endif
 
 #define MAXT 8
 #define MAXALT 16
